@@ -7,7 +7,9 @@ package c07
 
 import (
 	"bufio"
+	"bytes"
 	"encoding/json"
+	"errors"
 	"fmt"
 	"os"
 	"os/exec"
@@ -16,6 +18,9 @@ import (
 	"strings"
 	"sync"
 	"testing"
+	"time"
+
+	"github.com/cilium/ebpf"
 
 	"verif/nativebpf"
 	"verif/report"
@@ -102,6 +107,7 @@ func TestCheck(t *testing.T) {
 	if *report.FlagReplay != "" {
 		os.Exit(replay(dir))
 	}
+	t0 := time.Now()
 	tier := "quick"
 	shards := 4
 	if run.Thorough() {
@@ -186,6 +192,10 @@ func TestCheck(t *testing.T) {
 	run.AddEvals(0, 0)
 	run.SetExtra("evaluations", evals)
 	run.SetExtra("distinct_nontrivial", nontrivial)
+	tEnum := time.Since(t0)
+	kernelConformance(run, dir)
+	run.SetExtra("phase_seconds", map[string]float64{"enumeration": tEnum.Seconds(), "kernel_conformance": (time.Since(t0) - tEnum).Seconds()})
+	fmt.Printf("phases: enumeration %.1fs kernel-conformance %.1fs\n", tEnum.Seconds(), (time.Since(t0) - tEnum).Seconds())
 	for _, x := range allV {
 		asan := 0
 		if strings.Contains(x.Detail, "asan build") {
@@ -199,6 +209,110 @@ func TestCheck(t *testing.T) {
 		run.Violation(v)
 	}
 	os.Exit(run.Finish())
+}
+
+// kernelConformance binds the natively compiled programs to the real thing: the
+// same sources are compiled to BPF bytecode, loaded through the running kernel's
+// verifier, and executed with BPF_PROG_TEST_RUN on every full-length frame shape
+// (plus a few truncations) in every map state; verdict and output bytes must
+// equal the native run's. A disagreement is a harness conformance error (the
+// native model misrepresents the program), a verifier rejection is a violation.
+func kernelConformance(run *report.Run, dir string) {
+	kdir := filepath.Join(dir, "k")
+	if err := nativebpf.KernelBuild(kdir); err != nil {
+		run.HarnessError(err.Error())
+		return
+	}
+	var total, agree int64
+	for _, p := range progs {
+		k, err := nativebpf.KernelLoad(kdir, p, 4096)
+		if err != nil {
+			var ve *ebpf.VerifierError
+			if errors.As(err, &ve) {
+				msg := err.Error()
+				if len(msg) > 1500 {
+					msg = msg[len(msg)-1500:]
+				}
+				run.Violation(report.Violation{Part: p + "/kernel-verifier", Kind: "kernel-verifier-reject", Site: p, Detail: "the running kernel's verifier rejects the program: " + msg})
+				continue
+			}
+			if errors.Is(err, nativebpf.ErrNoBPF) {
+				run.AddPart(report.Part{Name: p + "/kernel-conformance", Engine: "C:kernel-test-run", Note: "skipped: " + err.Error(), Exhaustive: false})
+				continue
+			}
+			run.HarnessError(p + ": " + err.Error())
+			continue
+		}
+		d, err := nativebpf.Start(dir, p, false)
+		if err != nil {
+			run.HarnessError(err.Error())
+			k.Close()
+			continue
+		}
+		resetEach := p == "nat44" || p == "qos_ratelimit"
+		var n, ok int64
+		step := uint32(1)
+		if !run.Thorough() {
+			step = 3
+		}
+		nstates, _ := d.SetState(0)
+	states:
+		for st := uint32(0); st < nstates; st++ {
+			d.SetState(st)
+			if err := k.CopyFrom(d); err != nil {
+				run.HarnessError(p + ": " + err.Error())
+				break
+			}
+			for idx := uint32(0); ; idx += step {
+				f, err := d.Shape(idx)
+				if err != nil || f == nil {
+					break
+				}
+				lens := []int{len(f)}
+				if run.Thorough() {
+					lens = append(lens, len(f)-1, len(f)-40, 60, 34, 14)
+				}
+				for _, l := range lens {
+					if l < 14 || l > len(f) {
+						continue
+					}
+					for pi, pr := range d.Progs {
+						if resetEach {
+							d.SetState(st)
+							if err := k.CopyFrom(d); err != nil {
+								run.HarnessError(p + ": " + err.Error())
+								break states
+							}
+						}
+						nr, err := d.Run(pi, 1, f[:l])
+						if err != nil {
+							run.HarnessError(p + ": native driver: " + err.Error())
+							break states
+						}
+						kv, kout, err := k.Run(pr.Name, f[:l])
+						if err != nil {
+							run.HarnessError(fmt.Sprintf("%s/%s: BPF_PROG_TEST_RUN len=%d: %v", p, pr.Name, l, err))
+							break states
+						}
+						n++
+						if int32(kv) == nr.Verdict && bytes.Equal(kout, nr.Frame) {
+							ok++
+						} else if n-ok <= 3 {
+							run.HarnessError(fmt.Sprintf("native/kernel disagreement %s/%s state=%d len=%d: native verdict=%d kernel verdict=%d outputs-equal=%v frame=%x", p, pr.Name, st, l, nr.Verdict, kv, bytes.Equal(kout, nr.Frame), f[:l]))
+						}
+					}
+				}
+			}
+		}
+		d.Close()
+		k.Close()
+		total += n
+		agree += ok
+		run.AddPart(report.Part{Name: p + "/kernel-conformance", Engine: "C:kernel-test-run", Bound: fmt.Sprintf("every %d-th frame shape x map states x programs; kernel verifier accepted the object", step),
+			Executions: n, Outcomes: ok, Exhaustive: true, Note: fmt.Sprintf("native and in-kernel (BPF_PROG_TEST_RUN) verdict+bytes agree on %d of %d runs", ok, n)})
+	}
+	run.SetExtra("kernel_conformance_runs", total)
+	run.SetExtra("kernel_conformance_agree", agree)
 }
 
 func replay(dir string) int {
